@@ -254,7 +254,7 @@ def main():
     engine.build(['asan'])
     quick = ck.tier == 'quick'
     dl = ck.deadline
-    plan = [(4, 1), (5, 1), (6, 0), ('inc', 4), ('deep', 7), (4, 2)] if quick else [(5, 1), (6, 1), ('inc', 5), ('deep', 9), (5, 2), (7, 0), (7, 1), (6, 2)]
+    plan = [(4, 1), ('inc', 4), (6, 0), ('deep', 7), (5, 1), (4, 2)] if quick else [(5, 1), ('inc', 5), ('deep', 9), (6, 1), (5, 2), (7, 0), (7, 1), (6, 2)]   # cheap and diverse first
     for (N, dev) in plan:
         if N == 'deep':
             # reduced alphabet, deeper: errors that need a whole section first (duplicate titles, errors after a closed section)
